@@ -5,12 +5,12 @@ package main
 import (
 	"fmt"
 	"go/ast"
-	"os"
-	"sort"
 	"go/constant"
 	"go/token"
 	"go/types"
 	"math/big"
+	"os"
+	"sort"
 	"strconv"
 	"strings"
 
@@ -18,15 +18,15 @@ import (
 )
 
 type SpecEnv struct {
-	x    *Exec
-	vars map[string]*Value
-	cur  *State
-	old  *State
-	fr   *Frame
-	li   *loopInfo
-	pkg  *types.Package
-	at   *ssa.BasicBlock // program point for resolving Go variable names (loop header)
-	posHint token.Pos    // where Go type expressions written in the contract are evaluated
+	x       *Exec
+	vars    map[string]*Value
+	cur     *State
+	old     *State
+	fr      *Frame
+	li      *loopInfo
+	pkg     *types.Package
+	at      *ssa.BasicBlock // program point for resolving Go variable names (loop header)
+	posHint token.Pos       // where Go type expressions written in the contract are evaluated
 }
 
 type specErr struct{ msg string }
@@ -334,7 +334,7 @@ func (env *SpecEnv) ident(name string) *Value {
 			if gv, ok := o.(*types.Var); ok {
 				if sp := x.prog.Package(env.pkg); sp != nil {
 					if g, ok := sp.Members[gv.Name()].(*ssa.Global); ok {
-						ptr := &Pointer{Base: x.ctx.Const("global$"+sanitize(g.String()), RefSort), ObjT: gv.Type(), Global: g.String()}
+						ptr := &Pointer{Base: x.globalRef(g.String()), ObjT: gv.Type(), Global: g.String()}
 						if iv := x.globalInit(nil, env.cur, ptr, gv.Type()); iv != nil {
 							return iv
 						}
@@ -731,6 +731,79 @@ func (env *SpecEnv) call(e *Expr) *Value {
 			return scalar(tInt, Ite(Eq(v.Term, x.null()), IntLit(0), x.mapLen(env.cur, v.T, v.Term)))
 		}
 		specFail("len of %s", args[0])
+	case "jmerge":
+		// jmerge(base, doc): base after decoding doc into it (JSON law)
+		base := env.eval(args[0])
+		if base.K == KPtr {
+			base = env.deref(base)
+		}
+		dv := env.eval(args[1])
+		var d *Term
+		if dv.K == KSlice {
+			d = x.bytesToStr(env.cur, dv)
+		} else {
+			d = dv.Term
+		}
+		x.trusted[jsonLaw] = true
+		return x.jsonMerge(base.T, d, base)
+	case "jokAs":
+		base := env.eval(args[0])
+		if base.K == KPtr {
+			base = env.deref(base)
+		}
+		dv := env.eval(args[1])
+		var d *Term
+		if dv.K == KSlice {
+			d = x.bytesToStr(env.cur, dv)
+		} else {
+			d = dv.Term
+		}
+		return scalar(tBool, x.jok(base.T, d))
+	case "jsonKeys":
+		// jsonKeys(T): the JSON object keys encoding/json reads and writes for struct type T,
+		// sorted and comma-separated (computed from the struct tags on every run)
+		t := env.lookupType(exprTypeName(args[0]))
+		if t == nil {
+			specFail("jsonKeys: unknown type %s", args[0])
+		}
+		st, ok := under(t).(*types.Struct)
+		if !ok {
+			specFail("jsonKeys: %s is not a struct", args[0])
+		}
+		var keys []string
+		for i := 0; i < st.NumFields(); i++ {
+			if st.Field(i).Anonymous() {
+				specFail("jsonKeys: embedded fields are not supported")
+			}
+			if k, use := jsonKey(st.Field(i), st.Tag(i)); use {
+				keys = append(keys, k)
+			}
+		}
+		sort.Strings(keys)
+		x.trusted[jsonLaw] = true
+		return scalar(tStr, x.strLit(strings.Join(keys, ",")))
+	case "setfield":
+		// setfield(s, "F", v): struct value s with field F replaced by v
+		sv := env.eval(args[0])
+		if sv.K == KPtr {
+			sv = env.deref(sv)
+		}
+		st, ok := under(sv.T).(*types.Struct)
+		if !ok || sv.K != KStruct || args[1].Op != "str" {
+			specFail("setfield(struct, \"Field\", value)")
+		}
+		nv := env.eval(args[2])
+		out := &Value{K: KStruct, T: sv.T, Fields: append([]*Value(nil), sv.Fields...)}
+		for i := 0; i < st.NumFields(); i++ {
+			if st.Field(i).Name() == args[1].Name {
+				if isNilConst(nv) {
+					nv = x.zeroValue(st.Field(i).Type())
+				}
+				out.Fields[i] = nv
+				return out
+			}
+		}
+		specFail("setfield: no field %s", args[1].Name)
 	case "jhas", "jok", "jfield", "jstr", "jint", "jbool", "jdecoded", "jstrs", "jmapint":
 		return env.specJSON(name, args)
 	case "tuple":
@@ -1125,6 +1198,16 @@ func (env *SpecEnv) methodCall(fn *Expr, args []*Expr) *Value {
 				}
 				x.lawState = env.cur
 				return x.pureFuncCall(fv, fld.Type(), avs, resT)
+			}
+			if fld, isVar := o.(*types.Var); isVar && x.rootFrame != nil && x.rootFrame.contract != nil && x.rootFrame.contract.PureCallbacks {
+				if sig, isSig := under(fld.Type()).(*types.Signature); isSig {
+					fv := env.field(fn)
+					var resT types.Type = sig.Results()
+					if sig.Results().Len() == 1 {
+						resT = sig.Results().At(0).Type()
+					}
+					return x.callbackCall(fv, fld.Type(), avs, resT)
+				}
 			}
 		}
 	}
